@@ -4,6 +4,7 @@ import (
 	"context"
 	"errors"
 	"fmt"
+	"math"
 	"sort"
 	"strings"
 	"sync/atomic"
@@ -249,6 +250,48 @@ func C06(rep *ev.Reporter, tier string) {
 	RunFamily(rep, gen, 3000, bud, judge)
 	rep.Coverage["zero_listener_runs_compared"] = plainChecked
 	c06Nested(rep, sets, maxMax)
+	// budgets at the end of the range ("no limit"): every rule set that ends within 1000 firings, under MaxCycle
+	// 2^64-1, 2^64-2, 2^63 and 2^32: judged like any run, and equal to the run under MaxCycle 1000
+	{
+		var names []string
+		for k := range sets {
+			names = append(names, k)
+		}
+		sort.Strings(names)
+		var n int64
+		for _, name := range names {
+			b, err := hx.Build(hx.NewProgram(sets[name](), grl.Style{}))
+			if err != nil {
+				continue
+			}
+			base := hx.Run(b, c06World(), hx.RunOpts{MaxCycle: 1000, NoSnapshots: true})
+			if base.Err != nil || base.Panic != nil {
+				continue // does not end (or fails) within 1000 firings
+			}
+			for _, mc := range []uint64{math.MaxUint64, math.MaxUint64 - 1, 1 << 63, 1 << 32} {
+				id := fmt.Sprintf("c06/extreme-budget/%s/%d", name, mc)
+				if rep.ReplayFilter != "" && rep.ReplayFilter != id {
+					continue
+				}
+				n++
+				tr := hx.Run(b, c06World(), hx.RunOpts{MaxCycle: mc, NoSnapshots: true})
+				c := &Case{Rules: b.Prog.Rules}
+				sig, what := "", ""
+				for _, v := range c06Judge(c, tr, nil) {
+					if v.Sig != "" && sig == "" {
+						sig, what = v.Sig+":extreme-budget", v.What
+					}
+				}
+				if sig == "" && hx.Evs(tr.Events) != hx.Evs(base.Events) {
+					sig, what = "C06:run-differs-under-extreme-budget", fmt.Sprintf("MaxCycle=%d: %s\n  MaxCycle=1000: %s", mc, hx.Evs(tr.Events), hx.Evs(base.Events))
+				}
+				if sig != "" {
+					rep.Violation(sig, what+"\n  case: "+id+"\n  grl: "+b.Prog.Text, map[string]interface{}{"case": id, "grl": b.Prog.Text, "max_cycle": fmt.Sprint(mc)})
+				}
+			}
+		}
+		rep.Coverage["extreme_budget_runs"] = n
+	}
 	{
 		nr, nt := c06CompleteOutside(rep)
 		rep.Coverage["complete_from_outside_runs"] = nr
